@@ -93,6 +93,9 @@ def gen_case(streams, tier):
         'assert_exc': f.choice(['custom', 'custom', 'pyrtl', 'value', 'internal']),
         'bad_batch': f.randrange(64) if f.random() < 0.4 else None,
         'short_expected': f.randrange(64) if f.random() < 0.3 else None,
+        # the wires to trace given as an explicit list in which some wire is mentioned twice
+        # (interface wires plus wires of interest, with an overlap)
+        'dup_track': f.randrange(64) if f.random() < 0.3 else None,
         'sched': world.gen_sched(streams),
     }
 
@@ -293,8 +296,14 @@ def run(case, res):
     tape = tape[:ncyc]
     tracer = 'all' if kind != 'compiled' else None
     try:
-        sim = replica.make_sim(kind, live, init, tracer='all')
         twin = replica.make_sim(kind, live, init, tracer='all')
+        track = 'all'
+        if case.get('dup_track') is not None and len(twin.tracer.trace) >= 1:
+            names = sorted(twin.tracer.trace)
+            track = [b.block.wirevector_by_name[n] for n in names]
+            track.insert(case['dup_track'] % (len(track) + 1), track[case['dup_track'] % len(names)])
+            res.faults.hit('wire_listed_twice_in_wires_to_track')
+        sim = replica.make_sim(kind, live, init, tracer=track)
     except HarnessError:
         raise
     except Exception as e:
